@@ -6,6 +6,12 @@ use crate::scenario::Runner;
 use emulator_2a_lib::machine::Bus;
 use serde_json::{json, Value};
 use std::io::BufRead;
+use std::panic::{catch_unwind, AssertUnwindSafe};
+
+/// A panic in the code under test is data: the signature becomes a sentinel that matches no specification row.
+fn guarded<F: FnOnce() -> Vec<i64>>(f: F) -> Vec<i64> {
+    catch_unwind(AssertUnwindSafe(f)).unwrap_or_else(|_| vec![-99])
+}
 
 pub fn sig(bus: &Bus, a: u8) -> Vec<i64> {
     let s = bus.verif_snapshot();
@@ -57,7 +63,10 @@ pub fn check(path: &str) {
                     for op in ops.as_array().unwrap() {
                         r.exec(op);
                     }
-                    assert!(r.panics == 0);
+                    if r.panics > 0 {
+                        mism += 1;
+                        first.push(json!({"kind": "pre", "ops": ops, "impl": "panic while building the pre-state"}));
+                    }
                     pres.push(r.m.bus().clone());
                 }
             }
@@ -67,14 +76,20 @@ pub fn check(path: &str) {
                 let rows = v["rows"].as_array().unwrap();
                 for byte in 0..=255u8 {
                     let mut b = pres[p].clone();
-                    b.write(a, byte);
-                    let got = sig(&b, a);
+                    let got = guarded(|| {
+                        b.write(a, byte);
+                        sig(&b, a)
+                    });
                     // reads never change state: read every address, then compare again
                     let before = b.clone();
-                    for r in 0..=255u8 {
-                        let _ = b.read(r);
-                    }
-                    if b != before {
+                    let pure = catch_unwind(AssertUnwindSafe(|| {
+                        for r in 0..=255u8 {
+                            let _ = b.read(r);
+                        }
+                        b == before
+                    }))
+                    .unwrap_or(false);
+                    if !pure {
                         reads_pure = false;
                     }
                     singles += 1;
@@ -92,9 +107,11 @@ pub fn check(path: &str) {
                 let a = v["a"].as_u64().unwrap() as u8;
                 let b2 = v["b"].as_u64().unwrap() as u8;
                 let mut b = pres[p].clone();
-                b.write(a, 90);
-                b.write(b2, 165);
-                let got = sig(&b, a);
+                let got = guarded(|| {
+                    b.write(a, 90);
+                    b.write(b2, 165);
+                    sig(&b, a)
+                });
                 pairs += 1;
                 let exp = row_of(&v["row"]);
                 if got != exp {
